@@ -2,6 +2,7 @@ package main
 
 import (
 	"fmt"
+	"os"
 	"go/types"
 	"reflect"
 	"strings"
@@ -475,6 +476,9 @@ func init() {
 	verifExtra["verifJSONParse"] = func(ex *Exec, st *State, fv FuncV, args []Value, res ssa.Value, at ssa.Instruction) bool {
 		rope := getRope(ex, st, args[0])
 		n, cond, err := ex.jsonParse(rope)
+		if os.Getenv("VERIF_DEBUG_JSON") != "" {
+			fmt.Fprintln(os.Stderr, "JSON rope:", describe(rope), "\n  cond:", cond.s)
+		}
 		id := len(docs(ex)) + 1
 		docs(ex)[id] = &jsonDoc{root: n, ok: cond, err: err}
 		if err != "" {
@@ -715,4 +719,101 @@ func jsonOpaqueReason(t types.Type, seen map[string]bool) string {
 
 func reflectTag(tag, key string) string {
 	return reflect.StructTag(tag).Get(key)
+}
+
+// verifJSONCopy(dst, src): *dst becomes what json.Unmarshal(json.Marshal(*src)) yields for the
+// same type: a deep copy in which only the fields encoding/json carries survive (exported, not
+// tagged "-"); everything else is the zero value. This is the contract of encoding/json for
+// plain data (numbers, strings, slices, maps with integer or string keys, structs, pointers);
+// interface-typed data is not supported.
+func init() {
+	verifExtra["verifJSONCopy"] = func(ex *Exec, st *State, fv FuncV, args []Value, res ssa.Value, at ssa.Instruction) bool {
+		d, okd := args[0].(IfaceV)
+		s, oks := args[1].(IfaceV)
+		if !okd || !oks || d.t == nil || s.t == nil {
+			fail("verifJSONCopy needs two non-nil pointers")
+		}
+		dp, sp := d.v.(PtrV), s.v.(PtrV)
+		pt, isPtr := d.t.Underlying().(*types.Pointer)
+		if !isPtr || dp.obj == 0 || sp.obj == 0 {
+			fail("verifJSONCopy needs two non-nil pointers")
+		}
+		st.store(dp, ex.jsonCopy(st, st.load(sp), pt.Elem()))
+		setRes(st, res, TupleV{})
+		return true
+	}
+}
+
+func (ex *Exec) jsonCopy(st *State, v Value, t types.Type) Value {
+	switch u := t.Underlying().(type) {
+	case *types.Basic:
+		return v
+	case *types.Pointer:
+		p := v.(PtrV)
+		if p.obj == 0 {
+			return p
+		}
+		id := st.alloc(u.Elem(), ex.jsonCopy(st, st.load(p), u.Elem()))
+		return PtrV{obj: id}
+	case *types.Struct:
+		sv := v.(StructV)
+		nf := make([]Value, len(sv.f))
+		for i := range sv.f {
+			f := u.Field(i)
+			tag := reflectTag(u.Tag(i), "json")
+			if !f.Exported() || tag == "-" {
+				nf[i] = zeroValue(f.Type())
+				continue
+			}
+			nf[i] = ex.jsonCopy(st, sv.f[i], f.Type())
+		}
+		return StructV{f: nf}
+	case *types.Array:
+		if _, _, ok := intInfo(u.Elem()); ok {
+			return v
+		}
+		av := v.(ArrV)
+		ne := make([]Value, len(av.e))
+		for i := range av.e {
+			ne[i] = ex.jsonCopy(st, av.e[i], u.Elem())
+		}
+		return ArrV{e: ne}
+	case *types.Slice:
+		sl := v.(SliceV)
+		if sl.obj == 0 {
+			return sl
+		}
+		switch c := st.container(sl).(type) {
+		case BytesV:
+			// octets (and other scalar arrays): a private copy of the window
+			na := (&ArrExpr{kind: 1, w: c.w}).copyFrom(u64(0), c.a, sl.off, sl.len)
+			id := st.alloc(types.NewArray(u.Elem(), 0), BytesV{a: na, n: sl.len, w: c.w})
+			return SliceV{obj: id, off: u64(0), len: sl.len, cap: sl.len}
+		case ArrV:
+			if !sl.off.isConst || !sl.len.isConst {
+				fail("verifJSONCopy of a slice with symbolic bounds")
+			}
+			ne := make([]Value, sl.len.v)
+			for i := range ne {
+				ne[i] = ex.jsonCopy(st, c.e[sl.off.v+uint64(i)], u.Elem())
+			}
+			id := st.alloc(types.NewArray(u.Elem(), int64(len(ne))), ArrV{e: ne})
+			return SliceV{obj: id, off: u64(0), len: sl.len, cap: sl.len}
+		}
+		fail("verifJSONCopy of a slice over %T", st.container(sl))
+	case *types.Map:
+		mr := v.(MapRef)
+		if mr.obj == 0 {
+			return mr
+		}
+		mv := st.heap[mr.obj].val.(*MapV)
+		ne := make([]MapEntry, len(mv.entries))
+		for i, e := range mv.entries {
+			ne[i] = MapEntry{k: e.k, v: ex.jsonCopy(st, e.v, u.Elem())}
+		}
+		id := st.alloc(st.heap[mr.obj].typ, &MapV{kt: mv.kt, vt: mv.vt, entries: ne})
+		return MapRef{obj: id}
+	}
+	fail("verifJSONCopy: type %s is not plain data", t)
+	return nil
 }
